@@ -191,6 +191,9 @@ FaultFailing(a, ev) ==
            (f.rm.res # Result(f.rm.a, f.scan) \/ f.rm.scan # StoreAfter(f.rm.a, f.scan))
         THEN {[clause |-> "fault_later_write", expected |-> StoreAfter(f.rm.a, f.scan)]} ELSE {})
   \cup (IF f.final \notin finals THEN {[clause |-> "fault_file", expected |-> SetToSeq(finals)]} ELSE {})
+  (* C15: whether the call returned or raised, no temporary file stays behind (the recorder does not count the  *)
+  (* case in which the failed call was the removal of that file)                                                *)
+  \cup (IF "tmp" \in DOMAIN f /\ f.tmp # 0 THEN {[clause |-> "fault_tmp", expected |-> 0]} ELSE {})
 
 Failing(a, ev) ==
   IF HasFault(ev) THEN FaultFailing(a, ev) ELSE
